@@ -24,7 +24,7 @@ LIB_DISK = "let v = 1;\n"
 A_DISK = 'let l = import "./lib.ucg";\nlet r = l.v;\n'
 # a library whose definitions sit far below the last line of the documents that import it
 BIG_DISK = "// filler\n" * 20 + "let cfg = {\n    port = 1,\n    host = \"h\",\n};\nlet far = 2;\n"
-DISK = {"a.ucg": A_DISK, "lib.ucg": LIB_DISK, "big.ucg": BIG_DISK}
+DISK = {"a.ucg": A_DISK, "lib.ucg": LIB_DISK, "big.ucg": BIG_DISK, "k_test.ucg": "let kk = 1;\n"}
 
 # Triangles on disk: A imports C and then B, B imports C, and A's diagnostic depends on a shape B
 # derives from C (two import levels). The directory walk order is file-system dependent, so 12
@@ -59,10 +59,12 @@ TEXTS = {
     "no-trailing-newline": "let x = 1;",
     "only-comment": "// nothing here\n",
     "import-field-chain": 'let b = import "./big.ucg";\nlet t = b.cfg;\nlet v = t.port + b.far;\nlet w = b.cfg.host;\n',
+    "k-unsaved": "// edited, never saved\n" * 30 + "let zz = 1;\n",
+    "uses-k-test": 'let k = import "./k_test.ucg";\nlet y = k.kk + 1;\n',
     "string-with-line-break": 'let s = "one\ntwo\nthree";\nlet e = "a\\n\\n\\nb";\n',
 }
 for _n, _t in list(DISK.items()):
-    if _n not in ("a.ucg", "lib.ucg", "big.ucg"):
+    if _n not in ("a.ucg", "lib.ucg", "big.ucg", "k_test.ucg"):
         TEXTS["disk:" + _n] = _t
 CORE = {"a.ucg": ["valid-import", "valid", "syntax-first-line", "type-error", "non-ascii-then-error"],
         "lib.ucg": ["lib-v", "lib-no-v", "lib-syntax-error", "empty", "rich"]}
@@ -521,6 +523,18 @@ def run(ctx):
     if thorough:
         traces += [list(t) for t in itertools.product(small, repeat=4)]
     traces.append(covering_tour())
+    # X is opened with an unsaved text and closed again; Y, which imports X, is (re-)sent with one and the same text
+    # before and after: what Y's text means must be taken from the disk again, and the same text must be analysed again
+    for tl in CORE["lib.ucg"]:
+        for ta in ("valid-import", "uses-missing-field"):
+            traces.append([("open", "lib.ucg", tl), ("open", "a.ucg", ta), ("close", "lib.ucg"), ("change", "a.ucg", ta)])
+            traces.append([("open", "a.ucg", ta), ("open", "lib.ucg", tl), ("change", "a.ucg", ta), ("close", "lib.ucg"), ("change", "a.ucg", ta)])
+            traces.append([("open", "lib.ucg", tl), ("close", "lib.ucg"), ("open", "a.ucg", ta), ("change", "a.ucg", ta)])
+    # the same with a document the workspace index does not read on its own (a *_test.ucg file)
+    for first in ([("open", "k_test.ucg", "k-unsaved"), ("close", "k_test.ucg")], [("open", "k_test.ucg", "k-unsaved"), ("change", "k_test.ucg", "k-unsaved"), ("close", "k_test.ucg")],
+                  [("open", "k_test.ucg", "k-unsaved")], []):
+        traces.append(first + [("open", "a.ucg", "uses-k-test")])
+        traces.append(first + [("open", "a.ucg", "uses-k-test"), ("change", "a.ucg", "uses-k-test")])
     for a, b, c in TRIANGLES:
         for first in (b, c):
             for kind in ("open", "change"):
